@@ -135,6 +135,13 @@ class Texts(object):
             else:
                 t = u"%s %d %s" % (ws[0], self.counter, u" ".join(ws[1:]))
                 t = t.strip()
+                if self.safe_for and self.rnd.random() < 0.12:
+                    # free text that begins like a structural keyword written in lower case, colon included
+                    # ("example: 2 apples", "regel: ..."): keywords are case-sensitive, this is plain text
+                    l = self.rnd.choice(self.safe_for)
+                    al = [a for a in l.kws[self.rnd.choice(sorted(STRUCT.values()))] if a.lower() != a]
+                    if al:
+                        t = u"%s: %s" % (self.rnd.choice(sorted(al)).lower(), t)
             if kind in ("tag", "cell", "comment") or all(l.readings(t) == set() for l in self.safe_for):
                 return t
         raise RuntimeError("no safe payload text found")
